@@ -95,6 +95,20 @@ func copyProblem(err error) {
 	panic("VERIF-INFRA: crash image could not be copied: " + err.Error())
 }
 
+// fileTimes lists every file of an image with its access and modification
+// time (the loader orders files - also two files of one key - by access time).
+func fileTimes(dir string) string {
+	var sb strings.Builder
+	_ = filepath.Walk(dir, func(p string, info os.FileInfo, err error) error {
+		if err == nil && info.Mode().IsRegular() {
+			rel, _ := filepath.Rel(dir, p)
+			fmt.Fprintf(&sb, "%s a=%s m=%s; ", filepath.Base(rel)[60:], atimeOf(info).Format("05.000000000"), info.ModTime().Format("05.000000000"))
+		}
+		return nil
+	})
+	return sb.String()
+}
+
 func copyDir(src string) string {
 	dst := stack.FreshDir()
 	_ = filepath.Walk(src, func(p string, info os.FileInfo, err error) error {
@@ -425,6 +439,7 @@ func checkImage(t *rapid.T, im image, before, after, codec string, maxSize int64
 	dir := copyDir(im.dir)
 	defer stack.RecycleDir(dir)
 	desc := fmt.Sprintf("image %q storage %s->%s; files: %v", im.stage, before, after, stack.ListFiles(dir))
+	desc += "; access / modification times: " + fileTimes(dir)
 	if im.inflight != nil {
 		desc += fmt.Sprintf("; in flight: %s (%d bytes, %d handed over)", im.inflight.key(), len(im.inflight.data), im.torn)
 	}
